@@ -371,7 +371,8 @@ Definition query_unresolved (c : cache) (inst : bytes) : bool * list out :=
     end.
 
 Definition exec_resolve (s : st) (now : N) (inst : bytes) (try_count : N) : st * list out :=
-  let '(sent, o) := query_unresolved (s_cache s) inst in
+  (* fix 48ec5c0: follow-ups only while some cached PTR record points to the instance *)
+  let '(sent, o) := if has_ptr_to (s_cache s) inst then query_unresolved (s_cache s) inst else (false, []) in
   if sent && retry_guard try_count max_try
   then (mkSt (s_cache s) (s_q s) (s_pending s) (s_resolved s)
              (s_retrans s ++ [(now + resolve_wait, RResolve inst (retry_next try_count))]), o)
